@@ -16,6 +16,8 @@ from lib.common import Run, hx, unhx
 from lib.proggen import ProgGen
 
 CORPUS = [  # (cfg, [sources...]) — past crashes and their neighbours; runs first
+    # keep-highest / keep-lowest on arrays with non-numeric elements, the count above the number of numeric ones
+    ("-", ["[1,'a',2].kh(3)", "[3,'x',2].kh(3)", "['x'].kh()", "[[1,2],7].kl(2)", "[1,'a'].kl(5)", "[null, 2].kh(2)", "['a','b'].kl()", "[1.5,'a',{'k':1}].kh(9)"]),
     # attribute reads / writes on computed values in every state of their lazily created attribute table: never evaluated, evaluated,
     # attribute set, restored; through `&v.x`, `?? `, inside functions and templates
     ("-", ["&v = 1 + 2; &v.x"]), ("-", ["(&v.bonus ?? 10) + v", "&v = 4; (&v.bonus ?? 10) + v"]), ("-", ["&v = 1 + 2; v; &v.x"]), ("-", ["&v = 1; &v.y = 4; &v.x"]),
